@@ -166,7 +166,9 @@ func runERC20Reddem(ctx *action.Context, tx action.RawTx) (bool, action.Response
 		return false, action.Response{Log: "error in getting validator addresses" + err.Error()}
 	}
 	name := ethcommon.BytesToHash(erc20redeem.ETHTxn)
-	if ctx.ETHTrackers.WithPrefixType(trackerlib.PrefixOngoing).Exists(name) || ctx.ETHTrackers.WithPrefixType(trackerlib.PrefixPassed).Exists(name) {
+	// as for ether redeems: a failed redeem was refunded and its tracker is kept, the same
+	// ethereum transaction cannot back a second tracker
+	if ctx.ETHTrackers.WithPrefixType(trackerlib.PrefixOngoing).Exists(name) || ctx.ETHTrackers.WithPrefixType(trackerlib.PrefixFailed).Exists(name) || ctx.ETHTrackers.WithPrefixType(trackerlib.PrefixPassed).Exists(name) {
 		return false, action.Response{
 			Log: "Tracker already exists",
 		}
